@@ -31,12 +31,14 @@ theorem c01_no_loss (hn : 0 < n) (hr : ReachableX n s) :
   · exact Or.inr ⟨by omega, hi.bufOk k (by omega) hk⟩
 
 /-- `accepted` grows only by a successful `tail` CAS of the publishing thread — by exactly the value that thread
-    wrote under its own sequence number — and that thread then reports success; no other action touches it -/
+    wrote under its own sequence number — and that thread then reports success (after measuring the length at `pLen`,
+    from where the only step leads to `done (sent _)`); no other action touches it -/
 theorem c01_accept_only_by_success (hn : 0 < n) (hr : ReachableX n s) :
     (∀ a, (∀ t, a ≠ .step t) → (apply s a).accepted = s.accepted) ∧
     ∀ t, (step s t).accepted = s.accepted
       ∨ (∃ v id len, s.thr t = .pPublish v id len ∧ s.tail = id ∧ s.buf (id % s.N) = v ∧
-            (step s t).accepted = s.accepted ++ [v] ∧ (step s t).thr t = .done (.sent len))
+            (step s t).accepted = s.accepted ++ [v] ∧ (step s t).thr t = .pLen id ∧
+            ∃ l, (step (step s t) t).thr t = .done (.sent l))
       ∨ (∃ id idx g, s.thr t = .rPub id idx g ∧ s.tail = g ∧ g = id ∧ idx = id % s.N ∧
             (step s t).accepted = s.accepted ++ [s.buf idx] ∧
             (step s t).thr t = .done (.pubIdx (some (max 1 (g - s.head))))) := by
@@ -46,7 +48,8 @@ theorem c01_accept_only_by_success (hn : 0 < n) (hr : ReachableX n s) :
   cases hl : s.thr t with
   | pPublish v id len =>
     by_cases he : s.tail = id
-    · exact Or.inr (Or.inl ⟨v, id, len, rfl, he, hi.wrOk t v id len hl, by simp [step, hl, he], by simp [step, hl, he]⟩)
+    · exact Or.inr (Or.inl ⟨v, id, len, rfl, he, hi.wrOk t v id len hl, by simp [step, hl, he], by simp [step, hl, he],
+        ⟨max 1 (id + 1 - s.head), by simp [step, hl, he]⟩⟩)
     · left; simp [step, hl, he]
   | rPub id idx g =>
     by_cases he : s.tail = g
